@@ -449,3 +449,38 @@ mod test {
         );
     }
 }
+
+#[cfg(redb_verif)]
+impl TransactionTracker {
+    /// Verification hook: read-only copy of the tracker state
+    pub(crate) fn verif_state(&self) -> crate::verif_types::VerifTrackerState {
+        let state = self.state.lock().unwrap();
+        crate::verif_types::VerifTrackerState {
+            next_savepoint_id: state.next_savepoint_id.0,
+            live_read_transactions: state
+                .live_read_transactions
+                .iter()
+                .map(|(k, v)| (k.raw_id(), *v))
+                .collect(),
+            next_transaction_id: state.next_transaction_id.raw_id(),
+            live_write_transaction: state.live_write_transaction.map(TransactionId::raw_id),
+            valid_savepoints: state
+                .valid_savepoints
+                .iter()
+                .map(|(k, v)| (k.0, v.raw_id()))
+                .collect(),
+            persistent_savepoints: state.persistent_savepoints.iter().map(|x| x.0).collect(),
+            pending_non_durable_commits: state
+                .pending_non_durable_commits
+                .iter()
+                .map(|(k, v)| (k.raw_id(), v.raw_id()))
+                .collect(),
+            unprocessed_freed_non_durable_commits: state
+                .unprocessed_freed_non_durable_commits
+                .iter()
+                .map(|x| x.raw_id())
+                .collect(),
+            deferred_close: state.deferred_close.is_some(),
+        }
+    }
+}
